@@ -147,6 +147,9 @@ pub fn run(tier: &str, seed: u64, out: &Path) -> i32 {
     let thorough = tier == "thorough";
     let sweep = tier == "sweep" || tier == "sweepb";
     let mut rng = Rng::new(seed ^ 0xc09);
+    if !sweep_mode(tier) {
+        crate::budgets_corr::cases_c09(&mut o, &mut rng.fork(), tier == "thorough");
+    }
     let mut progs = corpus::programs(&["tests/target", "tests/source"]);
     progs.retain(|p| !p.src.trim().is_empty());
     let (uni, its) = universe_elems(&progs);
@@ -414,6 +417,10 @@ pub fn run(tier: &str, seed: u64, out: &Path) -> i32 {
     o.direct_evals = evals;
     o.direct_distinct = distinct.len() as u64;
     o.finish(out, jobs_n())
+}
+
+fn sweep_mode(tier: &str) -> bool {
+    tier == "sweep" || tier == "sweepb"
 }
 
 fn jobs_n() -> usize {
